@@ -135,6 +135,17 @@ def gen(rng, family, n, box_kinds=None, start=None, cond=None, box_spread=None):
 
         def grad(x, fr=fr, amp=amp, c=c):
             return 0.1 * (x - c) + amp * fr * np.cos(fr * x)
+    elif family == "cosmix":
+        # strongly non-convex: cosines of random linear forms + a weak quadratic (many rejected updates, failed searches)
+        convex = False
+        Am = rng.normal(0, 1, (n, n))
+        wv = rng.uniform(0.5, 3.0, n)
+
+        def fun(x, Am=Am, wv=wv, c=c):
+            return _sc(np.sum(np.cos(wv * (Am @ x))) + 0.05 * (x @ x) + c @ x)
+
+        def grad(x, Am=Am, wv=wv, c=c):
+            return Am.T @ (-wv * np.sin(wv * (Am @ x))) + 0.1 * x + c
     elif family == "badscale":
         convex = True
         sc = 10.0 ** rng.uniform(-3, 3, n)
@@ -185,5 +196,5 @@ BENCH = {
 }
 
 CONVEX = ["qp", "qp4", "qpsoft"]
-NONCONVEX = ["qpcos", "osc", "badscale", "expwall", "rosenbrock", "beale", "styblinski_tang",
+NONCONVEX = ["qpcos", "osc", "cosmix", "badscale", "expwall", "rosenbrock", "beale", "styblinski_tang",
              "griewank", "rastrigin", "quartic", "sphere"]
